@@ -46,7 +46,7 @@ Definition s_field (want have : option bytes) : bool :=
    same with component lists ("/a/b" -> [a; b], "/" -> []); the two agree on valid object paths
    (Proofs.v, in_namespace_components). *)
 Definition in_namespace (ns p : bytes) : bool :=
-  lbeq p ns || starts_with (if lbeq ns [slash] then ns else ns ++ [slash]) p.
+  lbeq p ns || (if lbeq ns [slash] then true else starts_with (ns ++ [slash]) p).
 
 Definition components (p : bytes) : list bytes :=
   filter (fun e => negb (lbeq e [])) (split_on slash p).
@@ -116,15 +116,6 @@ Definition local (r : rule) (m : msg) : bool :=
    (each is a syntactic description of where the code is allowed to differ; see Proofs.v) *)
 Definition has_args (r : rule) : bool := negb (is_nil (r_args r) && is_nil (r_arg_paths r)).
 
-(* the rule has a destination, the message has none *)
-Definition k_dest_absent (r : rule) (m : msg) : bool :=
-  match r_destination r, m_destination m with Some _, None => true | _, _ => false end.
-(* path_namespace is a string prefix of the path without being a component prefix *)
-Definition k_path_ns_prefix (r : rule) (m : msg) : bool :=
-  match r_path r, m_path m with
-  | Some (PNamespace ns), Some p => starts_with ns p && negb (in_namespace ns p)
-  | _, _ => false
-  end.
 (* an argNpath key meets a STRING argument, or an OBJECT_PATH argument that differs from the value
    while one of the two ends with '/' *)
 Definition k_arg_path_one (body : list arg) (ia : N * bytes) : bool :=
@@ -146,12 +137,10 @@ Definition k_arg0ns_untyped (r : rule) (m : msg) : bool :=
   end.
 
 Definition known_C21 (r : rule) (m : msg) : bool :=
-  k_dest_absent r m || k_path_ns_prefix r m || k_arg_path r m || k_sole_struct r m || k_arg0ns_untyped r m.
+  k_arg_path r m || k_sole_struct r m || k_arg0ns_untyped r m.
 
 Definition class_of (r : rule) (m : msg) : bytes :=
-  if k_dest_absent r m then B "dest_absent"
-  else if k_path_ns_prefix r m then B "path_ns_prefix"
-  else if k_arg_path r m then B "arg_path_rules"
+  if k_arg_path r m then B "arg_path_rules"
   else if k_sole_struct r m then B "sole_struct_flattened"
   else if k_arg0ns_untyped r m then B "arg0ns_untyped"
   else dash.
